@@ -123,6 +123,16 @@ func checkC17(r *Run) {
 		ShapeCase{"ok(cipher/bip32.PrivateKey.NewPrivateChildKey(" + acct + "#0, $2))", "cipher.NewSecKey(cipher/bip32.PrivateKey.NewPrivateChildKey(" + acct + "#0, $2)#0.key.Key)#0"},
 		ShapeCase{"", "zero"})
 	ruleBip44SecretCoordinates(r, "C17-R2")
+	// the entry validity predicates that guard loading and AddEntry: an entry verifies only if its public key is
+	// the key of its secret, the key is valid, and the address is the address of that public key
+	r.RequireOnSuccess("C17-R2", "wallet.Entry.Verify",
+		req("public key derives from the secret key", "cipher.PubKeyFromSecKey($0.Secret)#0 == $0.Public"),
+		req("public key and address verified", "ok(wallet.Entry.VerifyPublic($0))"))
+	r.RequireOnSuccess("C17-R2", "wallet.Entry.VerifyPublic",
+		req("public key valid", "ok(cipher.PubKey.Verify($0.Public))"),
+		req("address belongs to the public key", "ok(iface:cipher.Addresser.Verify($0.Address, $0.Public))"))
+	r.RequireOnSuccess("C17-R2", "cipher.Address.Verify",
+		req("version 0", "$0.Version == 0"), req("address key is the hash of the public key", "$0.Key == cipher.PubKeyRipemd160($1)"))
 	// xpub entries
 	const xg = "wallet/xpubwallet.Wallet.generateEntries"
 	if fn := r.fn("C17-R2", xg); fn != nil {
@@ -245,6 +255,36 @@ func checkC18(r *Run) {
 				}
 			}
 			r.Check("C18-R2", lock+": the receiver and the working clone are both erased", r.P.Pos(fn.Pos()), recvErased && cloneErased, "")
+		}
+		// the cipher recorded in the locked wallet is the cipher that encrypted it (else Unlock cannot find it)
+		if fn := r.P.Fn(lock); fn != nil {
+			ff := r.P.Facts(fn)
+			used, rec := "", ""
+			for _, f := range append([]*ssa.Function{fn}, r.P.singleUseCallees(fn, 2)...) {
+				hf := r.P.Facts(f)
+				for _, cs := range r.CallSites(f, "cipher/crypto.GetCrypto") {
+					t := hf.Term(cs.Common().Args[0])
+					if f != fn {
+						// express the helper's argument in Lock's terms
+						for _, b := range fn.Blocks {
+							for _, in := range b.Instrs {
+								if ci, ok := in.(ssa.CallInstruction); ok && ci.Common().StaticCallee() == f {
+									var args []string
+									for _, a := range ci.Common().Args {
+										args = append(args, ff.Term(a))
+									}
+									t = substParams(t, args)
+								}
+							}
+						}
+					}
+					used = t
+				}
+			}
+			for _, cs := range r.CallSites(fn, "wallet.Meta.SetEncrypted") {
+				rec = ff.Term(cs.Common().Args[1])
+			}
+			r.Check("C18-R2", lock+": the crypto type recorded by SetEncrypted is the one the secrets were encrypted with", r.P.Pos(fn.Pos()), used != "" && used == rec, "encrypted with "+trunc(used, 120)+" but recorded "+trunc(rec, 120))
 		}
 		unlock := wt.pkg + ".Wallet.Unlock"
 		r.RequireOnSuccess("C18-R2", unlock,
